@@ -89,6 +89,103 @@ def static_flags(mod, t):
     return {"has_set": has_set[0]}
 
 
+def judge_results(chk, b, cases, meta, res, info):
+    for cid, (tname, syn, mk, mb) in meta.items():
+        r = res.get(cid)
+        if r is None or r.status == "notrun":
+            chk.inconcl("case not run")
+            continue
+        chk.evaluations += 1
+        chk.seen((b.seed, tname, syn, mb))
+        flags, tkind, ttext = info(tname)
+        replay = {"module": b.text, "pdu": tname, "syntax": syn, "mutation": mk, "input_hex": mb.hex()}
+        if r.status in ("crash", "hang"):
+            kind, frame = drv.classify_report(r.stderr)
+            nans = len(r.events)
+            ops = [c for c in cases if c.cid == cid][0].ops
+            dying = ops[nans] if nans < len(ops) else "?"
+            m_ = re.search(r"^(\w+).*?syn=(\w+)", dying)
+            dop = (m_.group(1) + ":" + m_.group(2)) if m_ else dying.split(" ")[0]
+            if r.confirmed is False:
+                chk.inconcl("crash not reproduced on re-run")
+                continue
+            chk.violation({"symptom": r.status, "report": kind, "frame": frame, "dying_op": dop, "has_set": flags["has_set"]},
+                          "%s in %s (%s) while '%s' after decoding %s mutant (%s) of %s" % (
+                              r.status, frame, kind, dop, syn, mk, tname),
+                          dict(replay, stderr=r.stderr[-3000:], script=ops))
+            continue
+        d = r.events[0]
+        if d.get("error"):
+            chk.inconcl("driver: " + d["error"])
+            continue
+        if d.get("rc") not in ("OK", "WMORE", "FAIL"):
+            chk.violation({"symptom": "illegal-rc", "syntax": syn}, "decoder returned code %s for %s" % (d.get("rc"), tname), replay)
+        elif int(d["consumed"]) > int(d["size"]):
+            chk.violation({"symptom": "consumed-gt-size", "syntax": syn},
+                          "%s decoder reported consumed=%s for %s input bytes (%s)" % (syn, d["consumed"], d["size"], tname),
+                          replay)
+        chk.count("rc_" + d.get("rc", "?"))
+        encleak = False
+        for ei, e in enumerate(r.events[1:]):
+            if e["op"] == "enc" and e.get("mode") == "cb" and int(e.get("dlive", 0) or 0) != 0:
+                encleak = True
+                esyn = ENC_SYNS[ei - 2] if 2 <= ei < 2 + len(ENC_SYNS) else "DER"
+                chk.violation({"symptom": "encoder-leaves-allocation", "enc_ok": int(e.get("rc", -1)) >= 0,
+                               "enc_syntax": esyn, "kind": tkind},
+                              "asn_encode(%s) (rc=%s errno=%s, failed type %s) returned with %s allocation(s) still held, on the structure "
+                              "decoded from a %s mutant of %s" % (esyn, e.get("rc"), e.get("errno"), e.get("failtype"), e.get("dlive"), syn, tname),
+                              dict(replay, events=r.events))
+                break
+        if int(r.end.get("live", 0) or 0) != 0 and not encleak:
+            chk.violation({"symptom": "leak", "syntax": syn, "rc": d.get("rc"), "has_set": flags["has_set"]},
+                          "%s allocation(s) (%s bytes; sizes %s) still live after ASN_STRUCT_FREE following a %s decode (%s) of a %s mutant of %s" % (
+                              r.end.get("live"), r.end.get("livebytes"), r.end.get("sizes"), syn, d.get("rc"), mk, tname),
+                          dict(replay, events=r.events))
+        if len(chk.samples) < 5 and mk not in ("trunc",):
+            chk.sample({"pdu": tname, "type": ttext[:160], "syntax": syn, "mutation": mk,
+                        "input_hex": mb.hex()[:120], "decode": d.get("rc"), "consumed": d.get("consumed")})
+
+
+def real_round(chk, tc, rng, quick, nmut):
+    """the shipped real-world specifications and their shipped sample PDUs as mutation seeds (see vf/realpdu.py)"""
+    from .. import realpdu
+    nm = realpdu.names(quick)
+    blds = realpdu.make_many(tc, nm)
+    for spec, pdu, syn, label, data in realpdu.samples(tc, nm):
+        b = blds[spec]
+        if b.exe is None:
+            chk.inconcl("shipped specification %s not built (%s)" % (spec, b.error[0]))
+            continue
+        # the sample and the library's own encodings of it in the other syntaxes
+        r0 = drv.run_cases(b.exe, [drv.Case(1, ["dec s=0 t=%s syn=%s in=%s" % (pdu, syn, drv.hx(data))] +
+                                              ["enc s=0 syn=%s" % s for s in ("DER", "OER", "UPER", "BXER")] + ["free s=0"])], confirm=False).get(1)
+        corpus = {syn: [data]}
+        if r0 is not None and r0.status == "ok" and len(r0.events) >= 5 and r0.events[0].get("rc") == "OK":
+            chk.count("real_samples_decoded")
+            for s2, e in zip(("BER", "OER", "UPER", "BXER"), r0.events[1:5]):
+                if int(e.get("rc", -1)) >= 0 and e.get("out") not in (None, "trunc", "q") and s2 != syn:
+                    corpus.setdefault(s2, []).append(drv.unhex(e["out"]))
+        else:
+            chk.inconcl("shipped sample %s not decoded (C03)" % label)
+        cases, meta = [], {}
+        cid = 0
+        pool = [x for xs in corpus.values() for x in xs]
+        for s2, xs in corpus.items():
+            for x in xs:
+                muts = mutate(rng, x, pool, nmut * 4)
+                if quick and len(muts) > 120:
+                    muts = rng.sample(muts, 120)
+                for mk, mb in muts:
+                    cid += 1
+                    ops = ["dec s=0 t=%s syn=%s in=%s" % (pdu, s2, drv.hx(mb)), "prt s=0", "chk s=0 eb=64"] + \
+                          ["enc s=0 syn=%s quiet=1" % s for s in ENC_SYNS] + ["free s=0"]
+                    cases.append(drv.Case(cid, ops))
+                    meta[cid] = (pdu, s2, mk, mb)
+        res = drv.run_parallel(b.exe, cases, per_case_timeout=60)
+        chk.count("real_sample_mutants", len(cases))
+        judge_results(chk, b, cases, meta, res, lambda tname, b=b: ({"has_set": b.has_set}, "real", "shipped " + b.name + " " + tname))
+
+
 def run(tier, seed):
     chk = core.Check("C04", tier, seed)
     quick = tier == "quick"
@@ -206,59 +303,8 @@ def run(tier, seed):
                                                 "enc s=0 syn=DER quiet=1", "free s=0"]))
                     meta[cid] = (tname, s2, "cross:" + syn, xs[0])
         res = drv.run_parallel(b.exe, cases, per_case_timeout=60)
-        for cid, (tname, syn, mk, mb) in meta.items():
-            r = res.get(cid)
-            if r is None or r.status == "notrun":
-                chk.inconcl("case not run")
-                continue
-            chk.evaluations += 1
-            chk.seen((b.seed, tname, syn, mb))
-            t = b.mod.types[tname]
-            flags = static_flags(b.mod, t)
-            replay = {"module": b.text, "pdu": tname, "syntax": syn, "mutation": mk, "input_hex": mb.hex()}
-            if r.status in ("crash", "hang"):
-                kind, frame = drv.classify_report(r.stderr)
-                nans = len(r.events)
-                ops = [c for c in cases if c.cid == cid][0].ops
-                dying = ops[nans] if nans < len(ops) else "?"
-                m_ = re.search(r"^(\w+).*?syn=(\w+)", dying)
-                dop = (m_.group(1) + ":" + m_.group(2)) if m_ else dying.split(" ")[0]
-                if r.confirmed is False:
-                    chk.inconcl("crash not reproduced on re-run")
-                    continue
-                chk.violation({"symptom": r.status, "report": kind, "frame": frame, "dying_op": dop, "has_set": flags["has_set"]},
-                              "%s in %s (%s) while '%s' after decoding %s mutant (%s) of %s" % (
-                                  r.status, frame, kind, dop, syn, mk, tname),
-                              dict(replay, stderr=r.stderr[-3000:], script=ops))
-                continue
-            d = r.events[0]
-            if d.get("error"):
-                chk.inconcl("driver: " + d["error"])
-                continue
-            if d.get("rc") not in ("OK", "WMORE", "FAIL"):
-                chk.violation({"symptom": "illegal-rc", "syntax": syn}, "decoder returned code %s for %s" % (d.get("rc"), tname), replay)
-            elif int(d["consumed"]) > int(d["size"]):
-                chk.violation({"symptom": "consumed-gt-size", "syntax": syn},
-                              "%s decoder reported consumed=%s for %s input bytes (%s)" % (syn, d["consumed"], d["size"], tname),
-                              replay)
-            chk.count("rc_" + d.get("rc", "?"))
-            encleak = False
-            for ei, e in enumerate(r.events[1:]):
-                if e["op"] == "enc" and e.get("mode") == "cb" and int(e.get("dlive", 0) or 0) != 0:
-                    encleak = True
-                    esyn = ENC_SYNS[ei - 2] if 2 <= ei < 2 + len(ENC_SYNS) else "DER"
-                    chk.violation({"symptom": "encoder-leaves-allocation", "enc_ok": int(e.get("rc", -1)) >= 0,
-                                   "enc_syntax": esyn, "kind": b.mod.resolve(t).kind},
-                                  "asn_encode(%s) (rc=%s errno=%s, failed type %s) returned with %s allocation(s) still held, on the structure "
-                                  "decoded from a %s mutant of %s" % (esyn, e.get("rc"), e.get("errno"), e.get("failtype"), e.get("dlive"), syn, tname),
-                                  dict(replay, events=r.events))
-                    break
-            if int(r.end.get("live", 0) or 0) != 0 and not encleak:
-                chk.violation({"symptom": "leak", "syntax": syn, "rc": d.get("rc"), "has_set": flags["has_set"]},
-                              "%s allocation(s) (%s bytes; sizes %s) still live after ASN_STRUCT_FREE following a %s decode (%s) of a %s mutant of %s" % (
-                                  r.end.get("live"), r.end.get("livebytes"), r.end.get("sizes"), syn, d.get("rc"), mk, tname),
-                              dict(replay, events=r.events))
-            if len(chk.samples) < 5 and mk not in ("trunc",):
-                chk.sample({"pdu": tname, "type": model.type_text(t, 0)[:160], "syntax": syn, "mutation": mk,
-                            "input_hex": mb.hex()[:120], "decode": d.get("rc"), "consumed": d.get("consumed")})
+        judge_results(chk, b, cases, meta, res,
+                      lambda tname, b=b: (static_flags(b.mod, b.mod.types[tname]), b.mod.resolve(b.mod.types[tname]).kind,
+                                          model.type_text(b.mod.types[tname], 0)))
+    real_round(chk, tc, rng, quick, nmut)
     return chk.finish()
